@@ -330,6 +330,19 @@ end LV.BodyEnc
 namespace LV.BodyEnc
 open LV LV.BodyDec
 
+/-- the conversion changes only how line breaks are spelled: a reader that takes CRLF for the
+    line break reads the converted text as it reads the original (the reader's pending-CR flag
+    is the writer's `prevCr`) -/
+theorem toLfGo_crlfGo (p : Bool) (s : Bytes) : toLfGo p (crlfGo p s) = toLfGo p s := by
+  induction s generalizing p with
+  | nil => simp [crlfGo]
+  | cons b bs ih =>
+    by_cases h13 : b = 13
+    · subst h13; simp [crlfGo, toLfGo, ih]
+    · by_cases h10 : b = 10
+      · subst h10; cases p <;> simp [crlfGo, toLfGo, ih]
+      · simp [crlfGo, toLfGo, ih, h13, h10]
+
 theorem crlfGo_mem (p : Bool) (s : Bytes) : ∀ c ∈ crlfGo p s, c ∈ s ∨ c = 13 := by
   induction s generalizing p with
   | nil => simp [crlfGo]
